@@ -173,8 +173,8 @@ Fixpoint dict_put (acc : list (val * val)) (k v : val) : list (val * val) :=
 Definition a_dict : M val :=
   r <- scoped 0 (loop_src 0 (fun acc x =>
          match x with
-         | VTup [k; v] => if hashable k then ret (dict_put acc k v, true) else raise XTypeError
-         | VTup _ => raise XValueError          (* wrong number of values to unpack *)
+         | VTup [k; v] | VList [k; v] => if hashable k then ret (dict_put acc k v, true) else raise XTypeError
+         | VTup _ | VList _ => raise XValueError          (* wrong number of values to unpack *)
          | _ => raise XTypeError                (* cannot unpack a non-sequence *)
          end) []) ;;
   ret (VList (map (fun kv => VTup [fst kv; snd kv]) (fst r))).
